@@ -52,7 +52,7 @@ BOUNDS = {"quick": {"depth": {"past": 4, "future": 3}, "events": 11},
           "thorough": {"depth": {"past": 5, "future": 4}, "events": 11}}
 CASE_TIMEOUT = 1800
 
-EVENTS = ["py", "tab", "dflt", "c", "tpl", "hdr", "dtype", "loadL", "loadF", "loadO", "loadS"]
+EVENTS = ["py", "tab", "dflt", "c", "tpl", "hdr", "dtype", "loadL", "loadF", "loadO", "loadS", "loadB"]
 Q = [0.1, 0.5]
 A = 1.5
 # The two texts of every toggled constant have the same length AND the same byte sum AND the same position-weighted
@@ -80,11 +80,16 @@ parameters = [
     ["a", "", 1.0, [-inf, inf], "", ""],
     ["b", "", %(bdef)r, [-inf, inf], "", ""],
 %(extra)s]
-source = ["pm_lib.c"]
+source = ["sphere.c"]
 Iq = """
     return a*b*%(kpy)r*k_c()*VERIF_HDR%(extra_use)s*(1.0+q);
 """
 '''
+# The plug-in's own C file carries the NAME of a file of the model library (the builtin sphere model includes
+# models/sphere.c): the plug-in's directory comes first on the search path, so its own file must be the one compiled,
+# also after event loadB has loaded the builtin model in the same process (seeded change C17-g1 memoised the location
+# of included files by their bare name).
+LIBNAME = "sphere.c"
 LIB = "double k_c(void);\ndouble k_c(void) { return %r; }\n"
 
 
@@ -98,7 +103,7 @@ class Tree(object):
         self.cache = os.path.join(root, "cache")
         self.files = {
             "py": os.path.join(self.plug, "pm.py"),
-            "c": os.path.join(self.plug, "pm_lib.c"),
+            "c": os.path.join(self.plug, LIBNAME),
             "tpl": os.path.join(self.pkg, "kernel_iq.c"),
             "hdr": os.path.join(self.pkg, "kernel_header.c"),
         }
@@ -117,7 +122,7 @@ class Tree(object):
         os.makedirs(self.other)
         with open(os.path.join(self.other, "pm.py"), "w") as fh:
             fh.write(PLUGIN % {"extra": "", "kpy": OTHER_PY, "extra_use": "", "bdef": 1.0})
-        with open(os.path.join(self.other, "pm_lib.c"), "w") as fh:
+        with open(os.path.join(self.other, LIBNAME), "w") as fh:
             fh.write(LIB % OTHER_C)
         with open(self.files["tpl"]) as fh:
             self.base["tpl"] = fh.read()
@@ -158,7 +163,7 @@ class Tree(object):
         for w in ("py", "c", "tpl", "hdr"):
             self.write(w)
         # the other plug-in is newer than any edit this history can make (but in the same clock regime)
-        for f in ("pm.py", "pm_lib.c"):
+        for f in ("pm.py", LIBNAME):
             ns = int(self.clock + 5000) * 1000000000
             os.utime(os.path.join(self.other, f), ns=(ns, ns))
         for f in os.listdir(self.cache):
@@ -200,6 +205,18 @@ class Tree(object):
         k = A * 1.0 * OTHER_PY * OTHER_C * K_HDR[b["hdr"]] * (2.0 if b["tpl"] else 1.0)
         return [k * (1.0 + q) for q in Q], ["a", "b"]
 
+    def expected_builtin(self):
+        # builtin sphere at its defaults (radius 50, sld 1, solvent 6), scale 1, background 0, written out here
+        out = []
+        for q in Q:
+            x = q * 50.0
+            f = 3.0 * (np.sin(x) - x * np.cos(x)) / x ** 3
+            vol = 4.0 / 3.0 * np.pi * 50.0 ** 3
+            # (the toggled template line is the accumulation of the plain-Iq kernel; sphere supplies Fq and runs
+            # through the other variant in 1-D, so its value does not depend on that toggle)
+            out.append(1e-4 * ((1.0 - 6.0) * vol * f) ** 2 / vol)
+        return out, ["sld", "sld_solvent", "radius"]
+
     def expected(self):
         b = self.bits
         k = (A * B_DEFAULT[b["dflt"]] * K_PY[b["py"]] * K_C[b["c"]] * K_HDR[b["hdr"]] * (EXTRA if b["tab"] else 1.0)
@@ -220,6 +237,18 @@ def _evaluate(tree, other=False):
     model = core.load_model(path, dtype=dtype, platform="dll")
     kernel = model.make_kernel([np.array(Q)])
     vals = call_kernel(kernel, {"a": A, "scale": 1.0, "background": 0.0})
+    return {"values": [float(v) for v in vals], "lib": os.path.basename(model.dllpath),
+            "pars": [p.name for p in model.info.parameters.kernel_parameters], "dtype": str(model.dtype)}
+
+
+def _evaluate_builtin(tree):
+    """load + evaluate the BUILTIN sphere model in this process (its models/sphere.c is a library file)"""
+    from sasmodels import core
+    from sasmodels.direct_model import call_kernel
+    dtype = DTYPES[tree.bits["dtype"]][0]
+    model = core.load_model("sphere", dtype=dtype, platform="dll")
+    kernel = model.make_kernel([np.array(Q)])
+    vals = call_kernel(kernel, {"scale": 1.0, "background": 0.0})
     return {"values": [float(v) for v in vals], "lib": os.path.basename(model.dllpath),
             "pars": [p.name for p in model.info.parameters.kernel_parameters], "dtype": str(model.dtype)}
 
@@ -259,9 +288,11 @@ def _stale_components(tree, values, tol, other):
     return "+".join(best) if best else ""
 
 
-def _judge(tree, got, how, hist, agg, other=False, force_double=False):
-    exp, pars = tree.expected_other() if other else tree.expected()
+def _judge(tree, got, how, hist, agg, other=False, force_double=False, builtin=False):
+    exp, pars = tree.expected_builtin() if builtin else tree.expected_other() if other else tree.expected()
     dname, want_dtype, tol = DTYPES[0 if force_double else tree.bits["dtype"]]
+    if builtin:
+        tol = max(tol, 1e-9) * 50       # the formula above against the library's Bessel routine
     agg["loads"] += 1
     problems = []
     if "error" in got:
@@ -275,7 +306,8 @@ def _judge(tree, got, how, hist, agg, other=False, force_double=False):
             problems.append(("stale-table", "model reports parameters %r, current table is %r" % (got["pars"], pars)))
         if got["dtype"] != want_dtype:
             problems.append(("wrong-precision", "model precision %s, requested %s" % (got["dtype"], want_dtype)))
-        me = (("other plug-in hdr%d tpl%d" % (tree.bits["hdr"], tree.bits["tpl"])) if other else tree.key()) + " " + dname
+        me = (("builtin sphere hdr%d tpl%d" % (tree.bits["hdr"], tree.bits["tpl"])) if builtin
+              else ("other plug-in hdr%d tpl%d" % (tree.bits["hdr"], tree.bits["tpl"])) if other else tree.key()) + " " + dname
         # (the SasView-style class keeps its compiled model: its library is not a fresh cache lookup)
         owner = me if force_double else agg["libs"].setdefault(got["lib"], me)
         if owner != me:
@@ -339,6 +371,12 @@ def _apply(tree, ev, hist, agg, zsock):
         except Exception as exc:  # noqa
             got = {"error": "%r\n%s" % (exc, traceback.format_exc()[-800:])}
         _judge(tree, got, "same-process-sasview-loader", hist, agg, force_double=True)
+    elif ev == "loadB":
+        try:
+            got = _evaluate_builtin(tree)
+        except Exception as exc:  # noqa
+            got = {"error": "%r\n%s" % (exc, traceback.format_exc()[-800:])}
+        _judge(tree, got, "same-process-builtin", hist, agg, other=True, builtin=True)
     elif ev == "loadO":
         try:
             got = _evaluate(tree, other=True)
